@@ -975,8 +975,8 @@ func init() {
 			(*p).(Structure)[0] = a[1]
 			return nil
 		},
-		"os.Getenv": func(e *Exec, c *frame, a []Value) Value { return "" },
-		"log.New":   func(e *Exec, c *frame, a []Value) Value { var o Value = &Opaque{"log.Logger"}; return &o },
+		"os.Getenv":            func(e *Exec, c *frame, a []Value) Value { return "" },
+		"log.New":              func(e *Exec, c *frame, a []Value) Value { var o Value = &Opaque{"log.Logger"}; return &o },
 		"(*log.Logger).Printf": func(e *Exec, c *frame, a []Value) Value { return nil },
 		"log.Printf":           func(e *Exec, c *frame, a []Value) Value { return nil },
 
@@ -1081,15 +1081,20 @@ func init() {
 			}
 			return f(x, y)
 		},
-		"math.Float64bits":     func(e *Exec, c *frame, a []Value) Value { return fpToBits(a[0].(*Term)) },
-		"math.Float64frombits": func(e *Exec, c *frame, a []Value) Value { return &Term{Op: OFpOfBits, S: SFP, W: 64, A: []*Term{a[0].(*Term)}} },
+		"math.Float64bits": func(e *Exec, c *frame, a []Value) Value { return fpToBits(a[0].(*Term)) },
+		"math.Float64frombits": func(e *Exec, c *frame, a []Value) Value {
+			return &Term{Op: OFpOfBits, S: SFP, W: 64, A: []*Term{a[0].(*Term)}}
+		},
 	}
 	var e0 *Exec
 	externals["github.com/go-openapi/swag.FormatInt64"] = e0.numFormat("int")
 	externals["github.com/go-openapi/swag.FormatUint64"] = e0.numFormat("uint")
 	externals["github.com/go-openapi/swag.FormatFloat64"] = e0.numFormat("float")
 	pi := func(bits int) func(string) (Value, error) {
-		return func(s string) (Value, error) { v, err := strconv.ParseInt(s, 10, bits); return cBV(uint64(v), bits), err }
+		return func(s string) (Value, error) {
+			v, err := strconv.ParseInt(s, 10, bits)
+			return cBV(uint64(v), bits), err
+		}
 	}
 	pu := func(bits int) func(string) (Value, error) {
 		return func(s string) (Value, error) { v, err := strconv.ParseUint(s, 10, bits); return cBV(v, bits), err }
